@@ -52,7 +52,8 @@ SignWith(g, ds, m, rs, j) == IF j > Len(rs) THEN <<"none">>
 SignOk(e, sg) == e.outcome = "ok" /\ sg[1] = "ok" /\ BFromBE(e.h) = sg[2] /\ InRangeN(sg[2]) /\ JCanon(e.s) /\ Den1(e.s) = sg[3]
 Sign3(e, sg) == Stay /\ tlast' = Verdict(e, SignOk(e, sg), IF e.mode = "fixed" THEN "sign.fixed-r" ELSE "sign.free-r",
                                          IF Crash(e) THEN e.outcome ELSE IF e.outcome # "ok" THEN "sign-error" ELSE IF sg[1] # "ok" THEN "nonce-handling" ELSE "wrong-signature")
-Sign2(e, ds, m) == IF ds[1] = "none" THEN Stay /\ tlast' = Verdict(e, ~Crash(e), "sign.no-key", e.outcome) ELSE Sign3(e, SignWith(GPow(BFromBE(e.ks)), ds[2], m, e.rs, 1))
+\* (no private key exists for this (master key, identity) -- H1 + ks = 0 mod N --: nothing can be signed; the driver reports the failed extraction as err)
+Sign2(e, ds, m) == IF ds[1] = "none" THEN Stay /\ tlast' = Verdict(e, e.outcome = "err", "sign.no-key", IF Crash(e) THEN e.outcome ELSE "signed-without-a-key") ELSE Sign3(e, SignWith(GPow(BFromBE(e.ks)), ds[2], m, e.rs, 1))
 Sign1(e) == Sign2(e, ExtractSign(BFromBE(e.ks), e.idb), MsgOf(e))
 \* verification.  e.ppubs = master public key as given to the library (stored G2 point); e.ks only when ppubs = [ks]P2 (honest key)
 \* honest events carry e.r (the signer's nonce): validity follows from (h, S) = Sign(...) without evaluating a pairing
